@@ -1,5 +1,6 @@
-From SV Require Import Base.Bytes KeyEnc.Model KeyEnc.NetIP.
+From SV Require Import Base.Bytes KeyEnc.Model KeyEnc.NetIP KeyEnc.Strings.
 Require Extraction.
 Require Import ExtrOcamlBasic.
 Extraction "keyenc_model.ml" keep_types bytes_ltb bytes_eqb nuk primaryLen secondaryLen encodedPrimary encodedSecondary
-  enc dec uint16_key uint32_key uint64_key int16_key int32_key int64_key bool_key string_key lpmEncode lpmDecode netip_prefix_key netip_prefix_lpm_key.
+  enc dec uint16_key uint32_key uint64_key int16_key int32_key int64_key bool_key string_key lpmEncode lpmDecode netip_prefix_key netip_prefix_lpm_key
+  uint16_string_key uint32_string_key uint64_string_key int16_string_key int32_string_key int64_string_key netip_key netip_prefix4_lpm_key.
